@@ -36,10 +36,16 @@ CHECKS = {
     "C13": dict(level="exploration", tech="Go race detector (-race, implies checkptr) over measured-coverage stress histories; report blocks counted in GORACE log files and de-duplicated by frame pair",
                 text="All exported operations plus job/timer/persist goroutines in flight at once, with retention so that saves delete, monitored and real task runner; the run is inconclusive unless every lock-conflicting operation pair overlapped at least 20 times.", ref="4 C13",
                 note="Trusted base: the Go race detector and runtime. Only races on paths the workload reaches are seen; the evidence file lists the measured overlap matrix."),
+    "C14": dict(level="exploration", tech="runtime monitoring of the real http.Handler: exhaustive product of discovered routes (chi.Walk via hook H3) x methods x invalid credential classes x transports x profiling settings, with planted data markers and a before/after state monitor, plus a positive control",
+                text="The finite product routes x 7 methods x ~27 invalid credential classes x 3 transports x profiling on/off x 3 secrets is enumerated completely in both tiers (thorough repeats it with fresh random token mutations).", ref="4 C14",
+                note="Trusted base: chi's route walk lists every registered route; the listener (bind address, TLS) is outside the handler."),
     "C15": dict(level="exploration", tech="runtime monitoring: API flags (schedulable/running) vs outcome of the next request and vs job list at every quiescent step",
                 text="The schedulable flag is read immediately before every schedule request of the history and compared with what the request then returns; running flag, presence, ordering and timestamps are checked on every snapshot.", ref="4 C15"),
     "C16": dict(level="exploration", tech="runtime monitoring: the monitored runner records the task.Task actually handed to it (commands, env, variables); compared with a deep copy of the definition taken when the schedule request returned; reload operations inside conformance histories (also with the loop parked between tasks via H1)",
                 text="13 mutation operators applied at every point of a job's life; job list deep-equal across ReplaceDefinitions; per-job delay honoured; nothing stranded for pipelines that remain defined.", ref="4 C16"),
+    "C17": dict(level="exploration", tech="runtime monitoring of LoadRecursively / Equals on generated inputs: round trip against the generator's own value, independent re-statement of the validity rules, single-constraint corruptions, reflection-driven single-field mutator for Equals",
+                text="Generated YAML trees over all fields, 10 corruption kinds, every field x every applicable edit operator; an unknown field kind makes the run inconclusive instead of being skipped.", ref="4 C17",
+                note="Trusted base: yaml.v2 for emitting the input files; reflection enumerates the fields so future fields are included."),
 }
 
 NOT_YET = "check not built yet (framework under construction; see DESIGN.md section 4)"
